@@ -357,6 +357,12 @@ def run(prog, chk):
     if validator_domain(prog, r6) < 8:
         raise Broken("fewer than 8 direct normaliser calls found")
 
+    r9 = chk.rule("R9-string-field-order", "serialiser and deserialiser of a table entry agree on which string is the normalised key "
+                  "and which the original spelling (shared with C07 R9)", primary=False, floor=3)
+    from . import c07
+    if c07.ustring_field_order(prog, r9) < 3:
+        raise Broken("fewer than 3 serialise/deserialise pairs")
+
     r8 = chk.rule("R8-name-length-limit", "cif_is_valid_name counts characters (code points) and accepts exactly up to the line "
                   "length for data names, line length - 5 for block / frame codes", primary=False, floor=2)
     if name_length_limit(prog, r8) < 2:
